@@ -1164,7 +1164,7 @@ pub fn run_item(prop: &str, tier: &str, idx: usize, only: Option<&Value>) -> MRe
         let mut specs = vec![spec_for(&it, scen)];
         for o in &it.others { specs.push(spec_for(&it, o)); }
         let nworkers = specs.len();
-        let cfg = ExecCfg { abort_on_noise: !confirm, specs, mode, root_out: out(ROOT_IN), horizon: 300_000, timeout_s: 60, attack_procfs: prop_is_c06, scripted: it.scripted.clone() };
+        let cfg = ExecCfg { abort_on_noise: true, specs, mode, root_out: out(ROOT_IN), horizon: 300_000, timeout_s: 60, attack_procfs: prop_is_c06, scripted: it.scripted.clone() };
         let eo = execute(&cfg, ch)?;
         // An openat2 that the kernel aborted with EAGAIN on its own (something else on the machine renamed or mounted during
         // the call; our own mutations happen while the worker is stopped) changes the library's syscall sequence. Such an
@@ -1213,8 +1213,14 @@ pub fn run_item(prop: &str, tier: &str, idx: usize, only: Option<&Value>) -> MRe
 
     if let Some(o) = only {
         let scen: Scenario = match o.get("bundle_index").and_then(|x| x.as_u64()) { Some(i) => it.bundle[i as usize].clone(), None => it.scen.clone() };
-        let mut ch = Chooser::new(forced_from_json(&o["choices"]));
-        let (vs, otext) = one(&scen, &mut ch, &mut res, true, &mut counts)?;
+        let mut attempt = 0;
+        let (vs, otext) = loop {
+            let mut ch = Chooser::new(forced_from_json(&o["choices"]));
+            match one(&scen, &mut ch, &mut res, true, &mut counts) {
+                Err(Mach(m)) if (m.starts_with("NOISE") || m.starts_with("REPLAY DIVERGENCE")) && attempt < 40 => { attempt += 1; }
+                r => break r?,
+            }
+        };
         println!("outcome: {}", otext);
         for (k, d) in vs { res.violate(vkey(prop, &scen, &k), d, o.clone()); }
         return Ok(res);
@@ -1274,9 +1280,17 @@ pub fn run_item(prop: &str, tier: &str, idx: usize, only: Option<&Value>) -> MRe
             let keys: BTreeSet<String> = vs.iter().map(|x| x.0.clone()).collect();
             let mut confirmed = false;
             let mut last = String::new();
-            for _ in 0..3 {
+            let mut good = 0;
+            for _ in 0..40 {
+                if good >= 3 { break; }
                 let mut ch = Chooser::new(forced.clone());
-                let (vs2, o2) = one(&scen, &mut ch, &mut res, true, &mut counts)?;
+                // a replay disturbed by the kernel (EAGAIN from openat2 on its own, seen directly or as a divergence from the
+                // recorded choice labels) is not an attempt
+                let (vs2, o2) = match one(&scen, &mut ch, &mut res, true, &mut counts) {
+                    Err(Mach(m)) if m.starts_with("NOISE") || m.starts_with("REPLAY DIVERGENCE") => continue,
+                    r => r?,
+                };
+                good += 1;
                 let keys2: BTreeSet<String> = vs2.iter().map(|x| x.0.clone()).collect();
                 if keys2 == keys && o2 == otext { confirmed = true; break; }
                 last = format!("{:?} {}", keys2, o2);
